@@ -7,4 +7,7 @@ CONSTANTS
   StoreIn = FALSE
   InPlace = FALSE
   ReadEdits = FALSE
+  FirstWriteKeeps = FALSE
+  HookEditsOld = FALSE
+  InitKinds = {"absent", "present"}
   MaxLive = 200
